@@ -5,9 +5,12 @@ CONSTANTS
   MaxLen = 7
   MaxChunk = 7
   Streams <- AllStreams
+  LiveIds <- Live05
 INIT RInit
 NEXT RNext
 INVARIANT DeliveredIsContract
 INVARIANT BufferIsTail
+INVARIANT NoLineWaiting
 INVARIANT ArgvInBounds
+INVARIANT AbsentParamIsNull
 INVARIANT EofClean
